@@ -18,6 +18,38 @@ RULE = ("rule-based state machine: a comparable key type (leaf or composite: pai
         "Distinct = distinct history.")
 
 VT = rv.T("nat")
+# value types of the map under test; every one except nat has "falsy" inhabitants (False, "", 0x, None, {}) that a careless
+# `if value:` would confuse with "no binding"
+VTS = {"nat": rv.T("nat"), "bool": rv.T("bool"), "string": rv.T("string"), "bytes": rv.T("bytes"),
+       "option": rv.T("option", rv.T("nat")), "list": rv.T("list", rv.T("nat"))}
+
+
+def val_of(vname, n):
+    """Reference value of the chosen value type for the small integer n drawn by the rule."""
+    if vname == "nat":
+        return n
+    if vname == "bool":
+        return n % 2 == 1
+    if vname == "string":
+        return "" if n % 3 == 0 else "s%d" % n
+    if vname == "bytes":
+        return b"" if n % 3 == 0 else bytes([n])
+    if vname == "option":
+        return None if n % 3 == 0 else ("Some", n)
+    return [] if n % 3 == 0 else [n, n + 1][:1 + n % 2]
+
+
+# MAP body (after CDR) and the same transformation on reference values
+TRANSFORM = {
+    "nat": ([{"prim": "PUSH", "args": [{"prim": "nat"}, {"int": "1"}]}, {"prim": "ADD"}], lambda v: v + 1),
+    "bool": ([{"prim": "NOT"}], lambda v: not v),
+    "string": ([{"prim": "PUSH", "args": [{"prim": "string"}, {"string": "x"}]}, {"prim": "CONCAT"}], lambda v: "x" + v),
+    "bytes": ([{"prim": "PUSH", "args": [{"prim": "bytes"}, {"bytes": "00"}]}, {"prim": "CONCAT"}], lambda v: b"\x00" + v),
+    "option": ([{"prim": "IF_NONE", "args": [[{"prim": "PUSH", "args": [{"prim": "nat"}, {"int": "7"}]}, {"prim": "SOME"}],
+                                             [{"prim": "DROP"}, {"prim": "NONE", "args": [{"prim": "nat"}]}]]}],
+               lambda v: ("Some", 7) if v is None else None),
+    "list": ([{"prim": "PUSH", "args": [{"prim": "nat"}, {"int": "9"}]}, {"prim": "CONS"}], lambda v: [9] + v),
+}
 
 
 def _ts(t):
@@ -43,10 +75,12 @@ def make_machine(stats, depth):
             self.keys = rv.sort_values(self.kt, gt._consistent(self.kt, keys))
             self.sstack, self.mstack = MichelsonStack(), MichelsonStack()
             self.ctx = interp.new_context()
-            self.set_t, self.map_t = rv.T("set", self.kt), rv.T("map", self.kt, VT)
-            self.hist.append({"init": _ts(self.kt), "keys": [rv.to_micheline(self.kt, k) for k in self.keys]})
+            self.vname = data.draw(st.sampled_from(sorted(VTS)), label="value type")
+            self.vt = VTS[self.vname]
+            self.set_t, self.map_t = rv.T("set", self.kt), rv.T("map", self.kt, self.vt)
+            self.hist.append({"init": _ts(self.kt), "keys": [rv.to_micheline(self.kt, k) for k in self.keys], "vt": self.vname})
             self._run(self.sstack, [{"prim": "EMPTY_SET", "args": [self.kt]}], "EMPTY_SET")
-            self._run(self.mstack, [{"prim": "EMPTY_MAP", "args": [self.kt, VT]}], "EMPTY_MAP")
+            self._run(self.mstack, [{"prim": "EMPTY_MAP", "args": [self.kt, self.vt]}], "EMPTY_MAP")
             self.mset, self.mmap = set(), {}
             self.updates, self.removed, self.reinserted, self.touched = 0, set(), False, set()
             self.ready = True
@@ -102,18 +136,19 @@ def make_machine(stats, depth):
             i %= len(self.keys)
             self.hist.append({"op": "map " + ("GET_AND_UPDATE" if gau else "UPDATE"), "key": i, "val": val})
             self._note_update(i, val is None, i in self.mmap)
-            opt = {"prim": "None"} if val is None else {"prim": "Some", "args": [{"int": str(val)}]}
-            self._run(self.mstack, [interp.push(rv.T("option", VT), opt), self._k(i),
+            rval = None if val is None else val_of(self.vname, val)
+            opt = {"prim": "None"} if val is None else {"prim": "Some", "args": [rv.to_micheline(self.vt, rval)]}
+            self._run(self.mstack, [interp.push(rv.T("option", self.vt), opt), self._k(i),
                                     {"prim": "GET_AND_UPDATE" if gau else "UPDATE"}], "map GET_AND_UPDATE" if gau else "map UPDATE")
             if gau:
-                old = self._pop_value(self.mstack, rv.T("option", VT))
+                old = self._pop_value(self.mstack, rv.T("option", self.vt))
                 want = ("Some", self.mmap[i]) if i in self.mmap else None
                 if old != want:
                     raise Violation("GET_AND_UPDATE returned %r, model %r" % (old, want), self._case(), "observe:GET_AND_UPDATE")
             if val is None:
                 self.mmap.pop(i, None)
             else:
-                self.mmap[i] = val
+                self.mmap[i] = rval
 
         @precondition(lambda self: self.ready)
         @rule(i=st.integers(0, 7))
@@ -127,7 +162,7 @@ def make_machine(stats, depth):
             if self._pop_value(self.mstack, rv.T("bool")) != (i in self.mmap):
                 raise Violation("map MEM key %d disagrees with the model" % i, self._case(), "observe:map-MEM")
             self._run(self.mstack, [{"prim": "DUP"}, self._k(i), {"prim": "GET"}], "map GET")
-            got = self._pop_value(self.mstack, rv.T("option", VT))
+            got = self._pop_value(self.mstack, rv.T("option", self.vt))
             if got != (("Some", self.mmap[i]) if i in self.mmap else None):
                 raise Violation("map GET key %d = %r, model %r" % (i, got, self.mmap.get(i)), self._case(), "observe:GET")
             for stack, n, nm in ((self.sstack, len(self.mset), "set"), (self.mstack, len(self.mmap), "map")):
@@ -139,8 +174,9 @@ def make_machine(stats, depth):
         @rule()
         def map_values(self):
             self.hist.append({"op": "MAP {CDR; PUSH nat 1; ADD}"})
-            self._run(self.mstack, [{"prim": "MAP", "args": [[{"prim": "CDR"}, interp.push(VT, {"int": "1"}), {"prim": "ADD"}]]}], "MAP")
-            self.mmap = {k: v + 1 for k, v in self.mmap.items()}
+            body, fn = TRANSFORM[self.vname]
+            self._run(self.mstack, [{"prim": "MAP", "args": [[{"prim": "CDR"}] + body]}], "MAP")
+            self.mmap = {k: fn(v) for k, v in self.mmap.items()}
 
         @precondition(lambda self: self.ready)
         @rule()
@@ -179,14 +215,15 @@ def make_machine(stats, depth):
                 code = [interp.push(self.set_t, ks)]
                 stack = self.sstack
             else:
-                code = [interp.push(self.map_t, [{"prim": "Elt", "args": [k, {"int": str(j)}]} for j, k in enumerate(ks)])]
+                code = [interp.push(self.map_t, [{"prim": "Elt", "args": [k, rv.to_micheline(self.vt, val_of(self.vname, j))]}
+                                                 for j, k in enumerate(ks)])]
                 stack = self.mstack
             if mode == "sorted":
                 self._run(stack, [{"prim": "DROP"}] + code, which + " literal")
                 if which == "set":
                     self.mset = set(ids)
                 else:
-                    self.mmap = {i: j for j, i in enumerate(ids)}
+                    self.mmap = {i: val_of(self.vname, j) for j, i in enumerate(ids)}
             else:
                 self._run(stack, code, "%s %s-literal" % (mode, which), expect_fail=True)
                 if len(stack.items) != 1:
@@ -220,6 +257,7 @@ def make_machine(stats, depth):
             if self.ready and not stats.frozen:
                 nt = self.updates >= 3 and bool(self.removed) and self.reinserted and len(self.touched) >= 2
                 stats.case(self.hist, nt, "key:" + self.kt["prim"], sample=self.hist[:8])
+                stats.label("value:" + self.vname)
     return M
 
 
@@ -275,10 +313,12 @@ def _replay_init(m, first):
     m.keys = [rv.from_micheline(kt, k) for k in first["keys"]]
     m.sstack, m.mstack = MichelsonStack(), MichelsonStack()
     m.ctx = interp.new_context()
-    m.set_t, m.map_t = rv.T("set", kt), rv.T("map", kt, VT)
+    m.vname = first.get("vt", "nat")
+    m.vt = VTS[m.vname]
+    m.set_t, m.map_t = rv.T("set", kt), rv.T("map", kt, m.vt)
     m.hist.append(first)
     m._run(m.sstack, [{"prim": "EMPTY_SET", "args": [kt]}], "EMPTY_SET")
-    m._run(m.mstack, [{"prim": "EMPTY_MAP", "args": [kt, VT]}], "EMPTY_MAP")
+    m._run(m.mstack, [{"prim": "EMPTY_MAP", "args": [kt, m.vt]}], "EMPTY_MAP")
     m.mset, m.mmap = set(), {}
     m.updates, m.removed, m.reinserted, m.touched = 0, set(), False, set()
     m.ready = True
@@ -301,5 +341,5 @@ def _parse_ts(s):
 
 def run(h):
     depth = 1 if h.quick else 2
-    h.run_machine(lambda stats: make_machine(stats, depth), h.n(60, 600), 30 if h.quick else 60,
-                  shards=8 if h.quick else 16)
+    h.run_machine(lambda stats: make_machine(stats, depth), h.n(110, 800), 30 if h.quick else 60,
+                  shards=16)
